@@ -38,6 +38,16 @@ class C07(CleanBase):
             ops = setup + cfg + run + extra + [G.op_setenv(ci, upd), {"op": "dumpfs"}, {"op": "clean", "sort": sort, "count": info["count"]}, {"op": "dumpfs"}]
             cases.append({"ci": False, "updvar": "unset", "colour": False, "ops": ops,
                           "meta": {"mode": "ci=%s upd=%s sort=%s" % (ci, upd, sort), "nontest": nontest}})
+        # `%` in names (outside the modelled Sprintf, finding K8): whatever file the standalone calls really
+        # wrote must survive Clean and must not be listed
+        for i in range(n // 8):
+            r = rng.fork()
+            t = r.choice([b"TestPct/100%", b"TestPct/%d_items", b"TestPct/a%sb", b"TestP%%"])
+            cfg = G.op_newconfig(dir=b"def", fn=r.choice([None, b"f%v", b"plain"]), ext=r.choice([None, b".%x"]))
+            calls = [G.op_match_doc(r.choice(["stand", "standjson"]), 1, t, b'{"a":1}') for _ in range(r.range(1, 3))]
+            ci, upd = r.choice(G.ENVS)
+            ops = [cfg] + calls + [G.op_end(t), G.op_setenv(ci, upd), {"op": "dumpfs"}, {"op": "clean", "sort": r.chance(1, 2), "count": 1}, {"op": "dumpfs"}]
+            cases.append({"ci": False, "updvar": "unset", "colour": False, "ops": ops, "meta": {"mode": "pct", "oracle_only": True}})
         return cases
 
     def oracle(self, case, ops, results):
@@ -49,6 +59,18 @@ class C07(CleanBase):
             return []
         before, after = fss[-2][2], fss[-1][2]
         c = cl[0][2]
+        if case["meta"].get("oracle_only"):
+            fails = []
+            ofiles = set() if c["ofiles"] == "~" else set(unhx(x) for x in c["ofiles"].split(","))
+            for (name, kv), (_, idx, o) in zip(opl, obs):
+                if name == "match" and o["outcome"] in ("added", "updated"):
+                    for w in o["writes"].split(","):
+                        p = w.split(":", 1)[1]
+                        if after.get(p) != before.get(p):
+                            fails.append({"msg": "file %r written by a call of this run was changed or removed by Clean" % unhx(p), "name": unhx(kv["test"])})
+                        if unhx(p) in ofiles:
+                            fails.append({"msg": "file %r written by a call of this run is listed as obsolete" % unhx(p), "name": unhx(kv["test"])})
+            return fails
         cnt = next((int(kv["count"]) for name, kv in ops if name == "clean"), 1)
         otests = set() if c["otests"] == "~" else set(unhx(x) for x in c["otests"].split(","))
         ofiles = set() if c["ofiles"] == "~" else set(unhx(x) for x in c["ofiles"].split(","))
